@@ -51,3 +51,35 @@ Ltac tb_cases :=
   simpl; rewrite ?andb_true_r, ?andb_false_r, ?orb_false_r, ?orb_true_r, ?orb_false_l, ?andb_true_l; try reflexivity; try lia;
   try (rewrite ?Z.testbit_neg_r by lia; reflexivity);
   try (f_equal; lia).
+
+Lemma lt_pow2_of_bits a k : 0 <= a -> 0 <= k -> (forall n, k <= n -> Z.testbit a n = false) -> a < 2 ^ k.
+Proof.
+  intros Ha Hk H. destruct (Z.eq_dec a 0) as [->|Hz]; [apply pow2_pos; lia|].
+  apply Z.log2_lt_pow2; [lia|].
+  destruct (Z.lt_ge_cases (Z.log2 a) k) as [|Hge]; [assumption|exfalso].
+  assert (Hb : Z.testbit a (Z.log2 a) = true) by (apply Z.bit_log2; lia).
+  rewrite H in Hb by lia. discriminate.
+Qed.
+
+Lemma ge_pow2_of_bit a k : 0 <= a -> 0 <= k -> Z.testbit a k = true -> 2 ^ k <= a.
+Proof.
+  intros Ha Hk H. apply Z.testbit_true in H; [|lia].
+  assert (0 < 2 ^ k) by (apply pow2_pos; lia).
+  destruct (Z.lt_ge_cases a (2 ^ k)); [|lia].
+  rewrite Z.div_small in H by lia. discriminate.
+Qed.
+
+Lemma land_wrap64_ones y L : 0 <= L <= 64 -> Z.land (wrapU 64 y) (Z.ones L) = y mod 2 ^ L.
+Proof.
+  intros. rewrite Z.land_ones by lia. unfold wrapU.
+  assert (0 < 2 ^ L) by (apply pow2_pos; lia).
+  symmetry. apply Znumtheory.Zmod_div_mod; try lia.
+  exists (2 ^ (64 - L)). rewrite <- Z.pow_add_r by lia. f_equal. lia.
+Qed.
+
+Lemma unprobe_mod a p m : 0 < m -> ((a + p) mod m + m - p) mod m = a mod m.
+Proof.
+  intros. replace ((a + p) mod m + m - p) with ((a + p) mod m + (m - p)) by lia.
+  rewrite Zplus_mod_idemp_l. replace (a + p + (m - p)) with (a + 1 * m) by lia.
+  apply Z.mod_add. lia.
+Qed.
